@@ -129,7 +129,9 @@ CLAIMS.update({
             'NoClobber, FailureAtomic, SuccessComplete and that only the last step writes, and that the variant with the steps swapped '
             'VIOLATES FailureAtomic; every terminal state is executed with real files/symlinks and failing elements injected at each list '
             'position via Region.write and Regions.write; successful writes are read back by format, extension, content of a renamed copy '
-            'and gzip copies; random write sequences over an evolving directory are validated by Trace_FileIO.tla.',
+            'and gzip copies; random write sequences over an evolving directory are validated by Trace_FileIO.tla. Registry.tla models the I/O '
+            'registry and the format identifiers (Identify -> Lookup -> Invoke, registration, get_formats) for every registration order; its states '
+            'are replayed into the real RegionsRegistry and the real identifiers are evaluated on real files for every extension x content signature.',
             'Real filesystem semantics of the sandbox. Dangling symlink without overwrite and overwrite through a live symlink are modelled '
             'nondeterministically (both behaviours allowed). Which lists fail to serialise is observed, not predicted.',
             'TLA+ spec + TLC (incl. negative self-test), terminal states executed on a real filesystem, trace validation', 'DESIGN.md section 5 C14', 'fileio'),
@@ -188,7 +190,9 @@ CLAIMS.update({
             'the pre-fix deviations (include written verbatim / hoisted) the model itself yields the lost-exclusion counterexample. Every state is '
             'replayed: the real text is tokenised independently and compared line by line with the model (hoisted keys, frame placement, per-line '
             'properties, numbers), the real parse compared with the model, determinism; random lists of 1..8 regions (ten shapes, six frames, '
-            'precision 1..12) and all bundled .reg files go through two serialise/parse cycles; numbers validated by Trace_Ds9Write.tla.',
+            'precision 1..12) and all bundled .reg files go through two serialise/parse cycles; numbers validated by Trace_Ds9Write.tla. '
+            'Ds9Visual.tla transcribes the DS9 <-> matplotlib translation of visual properties case by case (82 944 combinations model-checked for '
+            'the fixed point and the shape-dependent filtering), every state replayed through the real reader and writer.',
             DS9_NOTE + ' Half-unit tolerance inclusive plus the resolution of a double; open findings: sizes below half a unit are written as 0.0; '
             'annulus sizes that collide after rounding.',
             'TLA+ writer+reader composition in TLC, spec->code replay with independent tokenizer, trace validation', 'DESIGN.md section 5 C09', 'ds9'),
@@ -199,7 +203,9 @@ CLAIMS.update({
             'inline; TLC checks no-region-without-frame, skip-is-stutter, non-interference, unsupported-frame-clears over all files of <= 3 lines '
             '(+ framed 4-line files; 4 lines thorough) and a lexical config (shape x frame x notation x unit x sign). Every final state is rendered '
             'in interchangeable styles and parsed by the real reader (regions, numbers to 1e-9, include, text, tags, colour precedence, warning '
-            'count); long generated files are validated by Trace_Ds9.tla.',
+            'count); long generated files are validated by Trace_Ds9.tla. A guarded hook logs the reader\'s persistent variables after every '
+            'physical line; Trace_Ds9Steps.tla steps Ds9!StepLine along each file and requires the projected model state to equal the logged one '
+            'after every line (corrupted logs must be rejected in every run).',
             DS9_NOTE, 'TLA+ reader state machine + TLC, spec->code replay through a concretiser, trace validation', 'DESIGN.md section 5 C10', 'ds9'),
 })
 
@@ -211,7 +217,8 @@ CLAIMS.update({
             'ellipse axes, label quoting) composed with it; TLC checks the reader rules, Read(Write(L, opts)) = L and the fixed point. Reader '
             'states are rendered to text and parsed by the real reader; writer states are replayed with an independent tokenizer and parsed '
             'back; random lists (fmt .3f-.9f, radunit deg/arcmin/arcsec, own frame or another coordsys) go through two cycles with the half-unit '
-            'clause validated in TLC.',
+            'clause validated in TLC. A guarded hook logs the parser state (global_meta, number of shapes) after every line; Trace_CrtfSteps.tla '
+            'validates it step by step against Crtf!StepLine.',
             'Transforms between different celestial frames are astropy\'s (positions compared on the sky). In the image coordinate system the '
             'reader takes bare numeric values as pixels whatever their unit suffix and the writer emits pixel positions with a deg suffix; this is '
             'modelled as the code does (see DESIGN.md). Metadata values are compared as text.',
@@ -278,7 +285,8 @@ def build():
         'notes': 'Every check is ./check <id>: (A) TLC on the TLA+ module(s) of the property, (B) replay of '
                  'TLC-generated states/behaviours into the real package, (C) validation by a Trace_*.tla module of '
                  'events recorded from the real package. Exit 2 = machinery failure. known_findings.json lists '
-                 'open findings (printed as KNOWN-FINDING) and fixed ones (suppress nothing).',
+                 'open findings (printed as KNOWN-FINDING) and fixed ones (suppress nothing). vf/par.py replays TLC dumps in forked workers; '
+                 'hooks (regions/_utils/verif.py, emit calls in the DS9/CRTF readers) are inert unless ASTROPY_REGIONS_VERIF=1.',
     }
     return man
 
@@ -299,7 +307,7 @@ ENGINES.append({'name': 'placement', 'path': 'specs/PlacementOps.tla specs/Place
                 'serves_properties': ['C05'], 'kind_free_text': 'exact placement model of RegionMask operations'})
 ENGINES.append({'name': 'pixcoord', 'path': 'specs/PixCoord.tla specs/MC_PixCoord.tla specs/Trace_PixCoord.tla vf/engines/c20.py',
                 'serves_properties': ['C20'], 'kind_free_text': 'array model of PixCoord: broadcasting, indexing, group laws, rotation'})
-ENGINES.append({'name': 'fileio', 'path': 'specs/FileIO.tla specs/Trace_FileIO.tla vf/engines/c14.py',
+ENGINES.append({'name': 'fileio', 'path': 'specs/FileIO.tla specs/Trace_FileIO.tla specs/Registry.tla specs/MC_Registry.tla vf/engines/c14.py vf/engines/registry.py',
                 'serves_properties': ['C14'], 'kind_free_text': 'step-ordered write model executed on a scratch filesystem'})
 ENGINES.append({'name': 'fits', 'path': 'specs/Fits.tla specs/MC_Fits.tla specs/Trace_Fits.tla vf/engines/c12.py',
                 'serves_properties': ['C12'], 'kind_free_text': 'FITS region table writer/reader model'})
@@ -307,9 +315,9 @@ ENGINES.append({'name': 'wcs', 'path': 'specs/Wcs.tla specs/MC_Wcs.tla specs/Tra
                 'serves_properties': ['C06', 'C07'], 'kind_free_text': 'conformal affine WCS abstraction of region conversion'})
 ENGINES.append({'name': 'artist', 'path': 'specs/Artist.tla specs/Geometry.tla vf/engines/c18.py',
                 'serves_properties': ['C18'], 'kind_free_text': 'patch outlines against exact membership; kwargs merge law'})
-ENGINES.append({'name': 'ds9', 'path': 'specs/Ds9.tla specs/MC_Ds9.tla specs/Ds9Write.tla specs/MC_Ds9Write.tla specs/Trace_Ds9.tla specs/Trace_Ds9Write.tla vf/ds9text.py vf/engines/c09.py c10.py',
+ENGINES.append({'name': 'ds9', 'path': 'specs/Ds9.tla specs/MC_Ds9.tla specs/Ds9Write.tla specs/MC_Ds9Write.tla specs/Trace_Ds9.tla specs/Trace_Ds9Write.tla specs/Trace_Ds9Steps.tla specs/Ds9Visual.tla specs/MC_Ds9Visual.tla vf/ds9text.py vf/engines/c09.py c10.py ds9visual.py',
                 'serves_properties': ['C09', 'C10'], 'kind_free_text': 'DS9 reader state machine and writer model, concretiser and tokenizer'})
-ENGINES.append({'name': 'crtf', 'path': 'specs/Crtf.tla specs/MC_Crtf.tla vf/crtftext.py vf/engines/c11.py',
+ENGINES.append({'name': 'crtf', 'path': 'specs/Crtf.tla specs/MC_Crtf.tla specs/Trace_CrtfSteps.tla vf/crtftext.py vf/engines/c11.py',
                 'serves_properties': ['C11'], 'kind_free_text': 'CRTF reader/writer model with concretiser and tokenizer'})
 ENGINES.append({'name': 'overlap', 'path': 'specs/Overlap.tla specs/MC_Overlap.tla specs/Trace_Overlap.tla vf/engines/c03.py',
                 'serves_properties': ['C03'], 'kind_free_text': 'measure axioms for exact overlap masks'})
